@@ -72,6 +72,8 @@ pub struct World {
     /// polls as they really happened in the current tick
     pub order: Mutex<Vec<(usize, &'static str, bool)>>,
     pub dw: AtomicU32,
+    /// consumed by the next poll: stash that many waker clones, optionally wake_by_ref, Pending
+    pub setup_poll: Mutex<Option<(usize, bool)>>,
 }
 
 impl World {
@@ -82,12 +84,25 @@ impl World {
             fallback: Mutex::new(Outcome::Pend),
             order: Mutex::new(Vec::new()),
             dw: AtomicU32::new(0),
+            setup_poll: Mutex::new(None),
         })
     }
 
     pub fn t(&self, id: usize) -> &TaskStats {
         &self.tasks[id]
     }
+}
+
+static CUR: Mutex<Option<Arc<World>>> = Mutex::new(None);
+
+/// The instrumented values hold no owning pointer (a double drop provoked by a broken executor must
+/// stay harmless for the harness): they find their counters through the current world.
+pub fn set_current(w: &Arc<World>) {
+    *lock(&CUR) = Some(w.clone());
+}
+
+fn cur() -> Arc<World> {
+    lock(&CUR).clone().expect("no current world")
 }
 
 pub fn lock<T>(m: &Mutex<T>) -> std::sync::MutexGuard<'_, T> {
@@ -98,7 +113,6 @@ pub fn lock<T>(m: &Mutex<T>) -> std::sync::MutexGuard<'_, T> {
 /// (the harness disarms what the JoinHandle delivered: that is "taken", not "dropped").
 pub struct Out {
     pub id: usize,
-    world: Arc<World>,
     armed: AtomicBool,
 }
 
@@ -111,7 +125,8 @@ impl Out {
 impl Drop for Out {
     fn drop(&mut self) {
         if self.armed.load(SeqCst) {
-            let t = self.world.t(self.id);
+            let w = cur();
+            let t = w.t(self.id);
             t.rdrops.fetch_add(1, SeqCst);
             lock(&t.rdrop_threads).push(std::thread::current().id());
         }
@@ -123,15 +138,14 @@ pub struct Payload(pub Out);
 
 pub struct InstrFuture {
     id: usize,
-    world: Arc<World>,
     finished: bool,
 }
 
 impl InstrFuture {
     pub fn new(id: usize, world: &Arc<World>) -> Self {
+        set_current(world);
         Self {
             id,
-            world: world.clone(),
             finished: false,
         }
     }
@@ -142,12 +156,22 @@ impl Future for InstrFuture {
 
     fn poll(mut self: Pin<&mut Self>, cx: &mut Context<'_>) -> Poll<Out> {
         let id = self.id;
-        let world = self.world.clone();
+        let world = cur();
         let t = world.t(id);
         t.polls.fetch_add(1, SeqCst);
         lock(&t.poll_threads).push(std::thread::current().id());
         if self.finished {
             t.polls_after_finish.fetch_add(1, SeqCst);
+            return Poll::Pending;
+        }
+        if let Some((n, selfwake)) = lock(&world.setup_poll).take() {
+            for _ in 0..n {
+                lock(&t.wakers).push(cx.waker().clone());
+            }
+            if selfwake {
+                cx.waker().wake_by_ref();
+            }
+            lock(&world.order).push((id, "setup", true));
             return Poll::Pending;
         }
         let (o, scripted) = {
@@ -163,7 +187,6 @@ impl Future for InstrFuture {
         lock(&world.order).push((id, o.name(), scripted));
         let mk = || Out {
             id,
-            world: world.clone(),
             armed: AtomicBool::new(true),
         };
         match o {
@@ -192,7 +215,8 @@ impl Future for InstrFuture {
 
 impl Drop for InstrFuture {
     fn drop(&mut self) {
-        let t = self.world.t(self.id);
+        let w = cur();
+        let t = w.t(self.id);
         t.fdrops.fetch_add(1, SeqCst);
         lock(&t.fdrop_threads).push(std::thread::current().id());
     }
